@@ -27,6 +27,12 @@ def scenario_list(tier, seed):
             for s in ((11, 12) if tier == "quick" else (11, 12, 13, 14)):
                 out.append({"id": sid, "sim": sim, "n": n, "edges": edges, "seed": s * 7 + gi, "weighted": (s % 2 == 0)})
                 sid += 1
+    # fixed latencies: many events at exactly the same instant (the order among them must not depend on hashing)
+    for gi, (n, edges) in enumerate(fam[:4]):
+        for s in (41, 42):
+            out.append({"id": sid, "sim": "nonMarkov_fixed_delays_SIS" if s % 2 else "nonMarkov_fixed_delays_SIR", "n": n, "edges": edges,
+                        "seed": s + gi, "weighted": False})
+            sid += 1
     # very uneven weights: the weighted sampler needs thousands of proposals per selection
     for s in (21, 22):
         out.append({"id": sid, "sim": "Gillespie_SIS_skewed_weights", "n": 0, "edges": [], "seed": s, "weighted": True})
@@ -58,6 +64,21 @@ def run_one(EoN, sc, full):
     sim = sc["sim"]
     random.seed(sc["seed"])
     np.random.seed(sc["seed"])
+    if sim.startswith("nonMarkov_fixed_delays"):
+        if sim.endswith("SIS"):
+            r = EoN.fast_nonMarkov_SIS(G, trans_time_fxn=lambda u, v, rd: [0.5, 1.0, 2.0], rec_time_fxn=lambda u: 1.25,
+                                       initial_infecteds=[nm[0], nm[-1]], tmax=5, return_full_data=full)
+            sts_ = ["S", "I"]
+        else:
+            r = EoN.fast_nonMarkov_SIR(G, trans_time_fxn=lambda u, v: 0.5, rec_time_fxn=lambda u: 1.0,
+                                       initial_infecteds=[nm[0], nm[-1]], return_full_data=full)
+            sts_ = ["S", "I", "R"]
+        if not full:
+            return {"arrays": [tuple(float(x) for x in a) for a in r]}
+        hist = tuple((u, tuple(float(t) for t in r.node_history(u)[0]), tuple(r.node_history(u)[1])) for u in nm)
+        summ = r.summary()
+        tr = tuple((float(t), repr(a), repr(b)) for (t, a, b) in r.transmissions())      # who infected whom, in the order reported
+        return {"full": (hist, tr), "arrays": [tuple(float(x) for x in summ[0])] + [tuple(float(x) for x in summ[1][s_]) for s_ in sts_]}
     if sim == "Gillespie_SIS_skewed_weights":
         nm = ["hub"] + ["leaf-%03d" % i for i in range(500)]
         G = nx.Graph()
